@@ -26,7 +26,10 @@ DefaultOpts == [special |-> DefaultSpecial,
                 singlePct |-> FALSE,       \* WithPercentEncodeSinglePercentSign
                 skipDrive |-> FALSE,       \* WithSkipWindowsDriveLetterNormalization
                 skipTrail |-> FALSE,       \* WithSkipTrailingSlashNormalization
-                preHost |-> "none"]        \* WithPreParseHostFunc: "none" | "gsb" (trim dots, collapse dot runs) | "semantic" (same; empty -> 0.0.0.0)
+                preHost |-> "none",        \* WithPreParseHostFunc: "none" | "gsb" (trim dots, collapse dot runs) | "semantic" (same; empty -> 0.0.0.0)
+                lax |-> FALSE,             \* WithLaxHostParsing
+                acceptInvalid |-> FALSE,   \* WithAcceptInvalidCodepoints (host state keeps the raw byte of an invalid code point)
+                latin1 |-> FALSE]          \* WithEncodingOverride(ISO8859_1)
 
 IsSpecialO(o, sch) == sch \in DOMAIN o.special
 DefaultPortO(o, sch) == IF sch \in DOMAIN o.special THEN o.special[sch] ELSE None
@@ -69,7 +72,8 @@ Preprocess(in, hasUrl) == SelectSeq(IF hasUrl THEN in ELSE TrimRight(TrimLeft(in
 PInitO(in, base, url, ov, idna, opts) ==
   [st |-> IF ov = "none" THEN "schemeStart" ELSE ov, ov |-> ov, ptr |-> 1, buf |-> <<>>,
    at |-> FALSE, br |-> FALSE, pw |-> FALSE, u |-> url, input |-> in, base |-> base,
-   res |-> "run", failAt |-> "", idna |-> idna, asked |-> None, opts |-> opts, steps |-> 0, work |-> 0]
+   res |-> "run", failAt |-> "", idna |-> idna, asked |-> None, opts |-> opts, steps |-> 0, work |-> 0,
+   rawin |-> in]          \* the same input before invalid bytes became U+FFFD (same positions); only accept-invalid-code-points looks at it
 PInit(in, base, url, ov, idna) == PInitO(in, base, url, ov, idna, DefaultOpts)
 
 Cur(s) == IF s.ptr > Len(s.input) \/ s.ptr < 1 THEN EOF ELSE s.input[s.ptr]
@@ -94,9 +98,44 @@ SqueezeDots(h) == IF Len(h) < 2 THEN h ELSE IF h[1] = 46 /\ h[2] = 46 THEN Squee
 PreHost(o, h) == IF o.preHost = "none" \/ h = <<>> THEN h
                  ELSE LET t == SqueezeDots(TrimDotsR(TrimDotsL(h))) IN
                       IF t = <<>> /\ o.preHost = "semantic" THEN <<48, 46, 48, 46, 48, 46, 48>> ELSE t
-(* parseHost: the host function runs first; an empty result is the empty host *)
+(* percent-encoding of one code point under the options: with the Latin-1 override an encoded code point is ONE byte
+   (its Latin-1 value, or 0x1A when it has none) instead of its UTF-8 bytes *)
+Enc1(o, S, c) == IF ~InSet(S, c) THEN <<c>> ELSE IF o.latin1 THEN PctByte(IF c < 256 THEN c ELSE 26) ELSE PctCp(c)
+EncStr1(o, S, s) == Flat([i \in 1..Len(s) |-> Enc1(o, S, s[i])])
+(* percent-decoding of bytes under the options: with the override a decoded byte is re-encoded as the UTF-8 of its Latin-1 code point *)
+RECURSIVE DecodeO(_, _, _)
+DecodeO(o, b, i) == IF i > Len(b) THEN <<>>
+                    ELSE IF IsPctTriple(b, i) THEN (LET v == 16 * HexVal(b[i+1]) + HexVal(b[i+2]) IN IF o.latin1 THEN Utf8(v) ELSE <<v>>) \o DecodeO(o, b, i + 3)
+                    ELSE <<b[i]>> \o DecodeO(o, b, i + 1)
+RunesOf(t) == [i \in 1..Len(t) |-> IF IsRaw(t[i]) THEN 65533 ELSE t[i]]        \* what ranging over the Go string yields
+EncBytesHostPE(b) == Flat([i \in 1..Len(b) |-> IF InSet(SetHostPE, b[i]) THEN PctByte(b[i]) ELSE <<b[i]>>])   \* percentEncodeString(input, HostPercentEncodeSet)
+EncStrSP(o, S, s) == Flat([i \in 1..Len(s) |-> IF o.singlePct /\ s[i] = 37 /\ ~IsPctTriple(s, i) THEN PctCp(37) ELSE Enc1(o, S, s[i])])
+(* parseHost (url/hostparser.go) under every option: host function first (an empty result is the empty host); lax host parsing turns
+   three failures into a result: an opaque host with a forbidden code point is kept as is, a domain that is not UTF-8 after decoding is
+   the byte-wise escaped input, a forbidden domain code point is escaped; a rejected IDNA mapping yields the decoded domain *)
 ParseHostO(o, buf, isOpaque, idna) ==
-  LET h == PreHost(o, buf) IN IF h = <<>> THEN HostOk(<<>>, None, "empty") ELSE ParseHost(h, isOpaque, idna)
+  LET h == PreHost(o, buf) IN
+  IF h = <<>> THEN HostOk(<<>>, None, "empty")
+  ELSE IF h[1] = 91 THEN
+     IF Last(h) # 93 THEN HostFail(None)
+     ELSE LET r == ParseIPv6(SubSeq(h, 2, Len(h) - 1)) IN
+          IF r = None THEN HostFail(None) ELSE HostOk(<<91>> \o SerIPv6(Get(r)) \o <<93>>, None, "ipv6")
+  ELSE IF isOpaque THEN
+     (IF \E i \in 1..Len(h) : IsForbiddenHost(RunesOf(h)[i]) THEN (IF o.lax THEN HostOk(h, None, "lax-opaque") ELSE HostFail(None))
+      ELSE HostOk(EncStr1(o, SetC0, RunesOf(h)), None, "opaque"))
+  ELSE LET bytes == DecodeO(o, BytesOfT(h), 1)
+           dec == Utf8Decode(bytes)
+       IN IF dec = None THEN (IF o.lax THEN HostOk(EncBytesHostPE(BytesOfT(h)), None, "lax-bytes") ELSE HostFail(None))
+          ELSE LET domain == Get(dec)
+                   triv == TrivialDomain(domain)
+                   asked == IF triv THEN None ELSE Some(domain)
+                   ascii == IF triv THEN Some(LowerSeq(domain)) ELSE idna
+               IN IF ascii = None \/ Get(ascii) = <<>> THEN (IF o.lax THEN HostOk(domain, asked, "lax-idna") ELSE HostFail(asked))
+                  ELSE LET ad == Get(ascii) IN
+                    IF \E i \in 1..Len(ad) : IsForbiddenDomain(ad[i]) THEN (IF o.lax THEN HostOk(EncStrSP(o, SetHostPE, ad), asked, "lax-forbidden") ELSE HostFail(asked))
+                    ELSE IF EndsInANumber(ad) THEN
+                         (LET v4 == ParseIPv4(ad) IN IF v4 = None THEN HostFail(asked) ELSE HostOk(SerIPv4(Get(v4)), asked, "ipv4"))
+                    ELSE HostOk(ad, asked, "domain")
 
 StSchemeStart(s, c) ==
   IF IsAlpha(c) THEN [s EXCEPT !.buf = Append(@, Lower(c)), !.st = "scheme"]
@@ -163,17 +202,17 @@ StSpecialAuthorityIgnoreSlashes(s, c) ==
   IF c # 47 /\ c # 92 THEN Back([s EXCEPT !.st = "authority"]) ELSE s
 
 (* credentials: walk buffer *)
-RECURSIVE Creds(_, _, _, _, _)
-Creds(buf, i, pw, user, pass) ==
+RECURSIVE Creds(_, _, _, _, _, _)
+Creds(o, buf, i, pw, user, pass) ==
   IF i > Len(buf) THEN <<pw, user, pass>>
-  ELSE IF buf[i] = 58 /\ ~pw THEN Creds(buf, i + 1, TRUE, user, pass)
-  ELSE IF pw THEN Creds(buf, i + 1, pw, user, pass \o EncCp(SetUserinfo, buf[i]))
-  ELSE Creds(buf, i + 1, pw, user \o EncCp(SetUserinfo, buf[i]), pass)
+  ELSE IF buf[i] = 58 /\ ~pw THEN Creds(o, buf, i + 1, TRUE, user, pass)
+  ELSE IF pw THEN Creds(o, buf, i + 1, pw, user, pass \o Enc1(o, SetUserinfo, buf[i]))
+  ELSE Creds(o, buf, i + 1, pw, user \o Enc1(o, SetUserinfo, buf[i]), pass)
 
 StAuthority(s, c) ==
   IF c = 64 THEN
     LET buf1 == IF s.at THEN <<37, 52, 48>> \o s.buf ELSE s.buf
-        r == Creds(buf1, 1, s.pw, s.u.user, s.u.pass)
+        r == Creds(s.opts, buf1, 1, s.pw, s.u.user, s.u.pass)
     IN [s EXCEPT !.at = TRUE, !.pw = r[1], !.u = [@ EXCEPT !.user = r[2], !.pass = r[3]], !.buf = <<>>,
                  !.work = @ + Len(buf1)]
   ELSE IF c = EOF \/ c \in {47, 63, 35} \/ SpecialBackslash(s, c) THEN
@@ -197,7 +236,9 @@ StHost(s, c) ==
          IF ~h.ok THEN Fail([s0 EXCEPT !.asked = h.asked])
          ELSE LET s1 == [s0 EXCEPT !.u.host = Some(h.host), !.buf = <<>>, !.st = "pathStart", !.asked = h.asked]
               IN IF Ov(s) THEN Ret(s1) ELSE s1
-  ELSE [s EXCEPT !.br = IF c = 91 THEN TRUE ELSE IF c = 93 THEN FALSE ELSE @, !.buf = Append(@, c)]
+  ELSE LET c2 == IF s.opts.acceptInvalid /\ c = 65533          \* the raw byte behind an invalid code point (a genuine U+FFFD loses all but its first byte)
+                 THEN (IF IsRaw(s.rawin[s.ptr]) THEN s.rawin[s.ptr] ELSE RawBase + 239) ELSE c
+       IN [s EXCEPT !.br = IF c = 91 THEN TRUE ELSE IF c = 93 THEN FALSE ELSE @, !.buf = Append(@, c2)]
 
 RECURSIVE PortVal(_, _, _)
 PortVal(b, i, acc) == IF i > Len(b) THEN acc
@@ -274,7 +315,7 @@ PathAddEmpty(s, u) ==     \* a trailing '.' stands for an empty segment; when co
   IF s.opts.collapse /\ IsSpecialO(s.opts, u.scheme) /\ u.path # <<>> /\ Last(u.path) = <<>> THEN u
   ELSE [u EXCEPT !.path = Append(@, <<>>)]
 InvalidPct(s) == Cur(s) = 37 /\ ~IsPctTriple(s.input, s.ptr)
-EncPathCp(s, S, c) == IF s.opts.singlePct /\ InvalidPct(s) THEN EncCp(SetAdd(S, {37}), c) ELSE EncCp(S, c)
+EncPathCp(s, S, c) == IF s.opts.singlePct /\ InvalidPct(s) THEN Enc1(s.opts, SetAdd(S, {37}), c) ELSE Enc1(s.opts, S, c)
 
 StPath(s, c) ==
   LET slash == c = 47 \/ SpecialBackslash(s, c) IN
@@ -301,12 +342,12 @@ StOpaquePath(s, c) ==
 StQuery(s, c) ==
   IF (~Ov(s) /\ c = 35) \/ c = EOF THEN
     LET set == IF Sp(s) THEN s.opts.sSQuery ELSE s.opts.sQuery
-        s1 == [s EXCEPT !.u.query = Some(Get(@) \o EncStr(set, s.buf)), !.buf = <<>>]
+        s1 == [s EXCEPT !.u.query = Some(Get(@) \o EncStr1(s.opts, set, s.buf)), !.buf = <<>>]
     IN IF c = 35 THEN [s1 EXCEPT !.u.frag = Some(<<>>), !.st = "fragment"] ELSE s1
   ELSE [s EXCEPT !.buf = Append(@, c)]
 
 StFragment(s, c) ==
-  IF c # EOF THEN [s EXCEPT !.u.frag = Some(Get(@) \o EncCp(IF Sp(s) THEN s.opts.sSFrag ELSE s.opts.sFrag, c))] ELSE s
+  IF c # EOF THEN [s EXCEPT !.u.frag = Some(Get(@) \o Enc1(s.opts, IF Sp(s) THEN s.opts.sSFrag ELSE s.opts.sFrag, c))] ELSE s
 
 Dispatch(s, c) ==
   CASE s.st = "schemeStart" -> StSchemeStart(s, c)
@@ -344,8 +385,8 @@ RECURSIVE Run(_)
 Run(s) == IF s.res # "run" THEN s ELSE Run(Step(s))
 
 (* ---- top-level: parse with optional base; input text is ingested (raw bytes -> U+FFFD) first ---- *)
-ParseO(in, base, idna, opts) == Run(PInitO(Preprocess(Ingest(in), FALSE), base, EmptyUrl, "none", idna, opts))
-ParseOvO(in, url, ov, idna, opts) == Run(PInitO(Preprocess(Ingest(in), TRUE), None, url, ov, idna, opts))
+ParseO(in, base, idna, opts) == Run([PInitO(Preprocess(Ingest(in), FALSE), base, EmptyUrl, "none", idna, opts) EXCEPT !.rawin = Preprocess(in, FALSE)])
+ParseOvO(in, url, ov, idna, opts) == Run([PInitO(Preprocess(Ingest(in), TRUE), None, url, ov, idna, opts) EXCEPT !.rawin = Preprocess(in, TRUE)])
 Parse(in, base, idna) == ParseO(in, base, idna, DefaultOpts)
 ParseOv(in, url, ov, idna) == ParseOvO(in, url, ov, idna, DefaultOpts)
 
